@@ -87,13 +87,13 @@ use super::*;
 /*@*/     }
 /*@*/ }
 /*@*/ /// one step of the walk at cell (i, j) = (new_idx, old_idx): the neighbour the code moves to keeps the remaining lcs
-/*@*/ /// (tie-break of the code: not equal and cell(i, j + 1) >= cell(i + 1, j) => delete, else insert)
+/*@*/ /// (the code: not equal and cell(i, j + 1) >= cell(i + 1, j) => delete, else insert; on a tie either move is optimal)
 /*@*/ proof fn lemma_walk <Old: Index<usize> + ?Sized, New: Index<usize> + ?Sized>(t: Map<(usize, usize), u32>, old: &Old, os: int, oe: int, new: &New, ns: int, ne: int, i: int, j: int) where New::Output: PartialEq<Old::Output>
 /*@*/   requires 0 <= i < ne - ns, 0 <= j < oe - os, tbl_lcs(t, old, os, oe, new, ns, ne)
 /*@*/   ensures
 /*@*/       eqv(old, os + j, new, ns + i) ==> lcs_len(old, os + j, oe, new, ns + i, ne) == 1 + lcs_len(old, os + j + 1, oe, new, ns + i + 1, ne),
 /*@*/       !eqv(old, os + j, new, ns + i) && tbl_val(t, i, j + 1) >= tbl_val(t, i + 1, j) ==> lcs_len(old, os + j, oe, new, ns + i, ne) == lcs_len(old, os + j + 1, oe, new, ns + i, ne),
-/*@*/       !eqv(old, os + j, new, ns + i) && tbl_val(t, i, j + 1) < tbl_val(t, i + 1, j) ==> lcs_len(old, os + j, oe, new, ns + i, ne) == lcs_len(old, os + j, oe, new, ns + i + 1, ne),
+/*@*/       !eqv(old, os + j, new, ns + i) && tbl_val(t, i, j + 1) <= tbl_val(t, i + 1, j) ==> lcs_len(old, os + j, oe, new, ns + i, ne) == lcs_len(old, os + j, oe, new, ns + i + 1, ne),
 /*@*/ {
 /*@*/     assert(cell_ok(t, old, os, oe, new, ns, ne, i, j + 1));
 /*@*/     assert(cell_ok(t, old, os, oe, new, ns, ne, i + 1, j));
@@ -173,6 +173,7 @@ where
 //@@ end
 
 //@@ item src/algorithms/lcs.rs :: ^pub fn diff_deadline\b rw=R0,R8
+/*@*/ #[verifier::rlimit(40)]
 pub fn diff_deadline<Old, New, D>(
     d: &mut D,
     old: &Old,
@@ -194,7 +195,6 @@ where
 /*@*/         (*final(d)).config() == (*vstd::prelude::old(d)).config(),
 /*@*/         seg_post(*vstd::prelude::old(d), *final(d), old, old_range, new, new_range, alg_lvl(deadline), deadline is None, fin::<D>(), res.is_ok()),
 {
-    /*@*/ hide(seg_eqs); hide(lcs_len);   // C03 bookkeeping goes through lemmas only (keeps the queries small)
     /*@*/ broadcast use {axiom_pure_index, axiom_pure_eq};
     /*@*/ let ghost rel = rel_of(old, new); let ghost lvl = alg_lvl(deadline);
     /*@*/ let ghost o0 = old_range.start as int; let ghost n0 = new_range.start as int;
@@ -316,7 +316,7 @@ where
     // without a table (deadline reached) the remaining items are deleted and
     // inserted by the code below.
 
-    /*@*/ proof { if opt { lemma_lcs_empty(old, oc, oe0 - common_suffix_len, new, nc, ne0 - common_suffix_len); } assert(opt ==> eqs == common_prefix_len + lcs_len(old, o0 + common_prefix_len, oe0 - common_suffix_len, new, n0 + common_prefix_len, ne0 - common_suffix_len)); }   // the walk has used up one side (no deadline: there was a table)
+    /*@*/ proof { assert(opt ==> eqs == common_prefix_len + lcs_len(old, o0 + common_prefix_len, oe0 - common_suffix_len, new, n0 + common_prefix_len, ne0 - common_suffix_len)); }   // the walk has used up one side (no deadline: there was a table)
     if old_idx < old_len {
         /*@*/ proof { let e = Ev::Delete((old_range.start + common_prefix_len + old_idx) as usize, (old_len - old_idx) as usize, (new_range.start + common_prefix_len + new_idx) as usize);  if d0.relies() { pre_call(rel, r1, lvl, s, e, o0, n0, oc, nc, rs0); } }
         d.delete(
